@@ -34,10 +34,12 @@ func main() {
 	r.SetRule("every CQL type tree (21 scalars; list/set/map/tuple/UDT over all scalars at depth 1 and over the reduced alphabet " +
 		"{int,bigint,text,varint,boolean,uuid,timestamp} at depth 2) x protocol version (1-5; tuple/UDT 3-5; depth 2: 2,3 quick / all thorough) " +
 		"x every Go source type of the Marshal doc table for the type (plus named types, *T, **T, typed nil pointers, untyped nil, " +
-		"[]T/[n]T/map[X]struct{}/[]interface{}/struct/map[string]interface{}/UDTMarshaler shapes) x a boundary-value alphabet per Go type, " +
+		"[]T/[n]T/map[X]struct{}/[]interface{}/struct/map[string]interface{}/UDTMarshaler shapes, structs omitting every non-empty proper " +
+		"subset of a UDT's fields) x a boundary-value alphabet per Go type, " +
 		"containers varying one element type/value at a time around a default; then every abstract value so met (plus alternative conformant " +
 		"encodings: boolean true as any non-zero byte, widened and 9-byte vints, UDTs with trailing null fields omitted) x every documented " +
-		"Unmarshal target able to hold it. A case is (type, version, Go type, value) resp. (type, version, encoding, target type); " +
+		"Unmarshal target able to hold it (for every UDT, at the top and nested in list/set/map/UDT, including the structs that omit each " +
+		"non-empty proper subset of its fields). A case is (type, version, Go type, value) resp. (type, version, encoding, target type); " +
 		"non-trivial = Marshal returned bytes (not an error) resp. the target is able to represent the value.")
 	r.Assume("value.Encode/Decode (engine/refcql/value) is the specification's serialisation (unit-tested against hand-computed vectors)",
 		"interpretations of NOTES.md: nil pointer/nil slice/nil map = null; unsigned Go integers on fixed-width columns denote the bit pattern; "+
@@ -284,6 +286,9 @@ func checkUnmarshal(r *report.Run, t *value.Type, ti gocql.TypeInfo, proto int, 
 		holder := reflect.New(gt)
 		err, pan := safeUnmarshal(ti, enc, holder.Interface())
 		local[fmt.Sprintf("unmarshal_cases_v%d", proto)]++
+		if omitsUDTField(t, gt) {
+			local[fmt.Sprintf("unmarshal_into_struct_omitting_udt_fields_depth%d", t.Depth())]++
+		}
 		if alt {
 			local["unmarshal_alternate_encoding_cases"]++
 		}
@@ -303,6 +308,9 @@ func checkUnmarshal(r *report.Run, t *value.Type, ti gocql.TypeInfo, proto int, 
 		if err != nil {
 			lt, lv, lgt := blameUnmarshal(t, v, gt, proto)
 			key := fmt.Sprintf("unmarshal:%s->%s%s:error", lt.ID, typeLeafName(lt, lgt), nullClass(lv))
+			if omitsUDTField(t, gt) && omittedFieldAtFault(t, v, gt, proto) {
+				key = "unmarshal:udt->struct:omitted-field:error"
+			}
 			replay["error"] = err.Error()
 			violation(r, key, fmt.Sprintf("gocql.Unmarshal(%s v%d, %s = %s, *%s) failed: %v", ts, proto, hexOrNull(enc), v, goName(gt), err), replay)
 			continue
@@ -314,6 +322,10 @@ func checkUnmarshal(r *report.Run, t *value.Type, ti gocql.TypeInfo, proto int, 
 		}
 		lt, lrv, lw, lg := absLeafDiff(t, exp, holder.Elem())
 		key := fmt.Sprintf("unmarshal:%s->%s%s:%s", lt.ID, staticLeafName(lt, lrv), nullClass(lw), wrongValueClass(lw, lg))
+		if omitsUDTField(t, gt) && omittedFieldAtFault(t, v, gt, proto) {
+			// every kept field is fine on its own: the fields the struct does not have were not skipped properly
+			key = "unmarshal:udt->struct:omitted-field:wrong-value"
+		}
 		replay["got"] = pretty(holder.Elem())
 		violation(r, key, fmt.Sprintf("gocql.Unmarshal(%s v%d, %s, *%s) = %s which denotes %s, specification: %s (expected in this target: %s); innermost difference at %s: got %s want %s",
 			ts, proto, hexOrNull(enc), goName(gt), pretty(holder.Elem()), gotAbs, v, exp, lt, lg, lw), replay)
